@@ -39,8 +39,21 @@ type Rec struct {
 	Split string
 	Idx   int // position within the split
 	Key   string
-	Ord   int // ordinal among the records of the same (split, key)
+	Ord   int   // ordinal among the keyed events of the same (split, key)
+	Sub   int   `json:",omitempty"` // which keyed event of its record this is (0 = the first)
+	Fan   []Fan `json:",omitempty"` // further keyed events KeyEvent derives from this record (a source record only)
 }
+
+// Fan is one additional keyed event of a record: a record may be keyed into
+// several events, each with a key of its own.
+type Fan struct {
+	Key string
+	Ord int
+}
+
+// at orders the keyed events of one split: by record, then by position in the
+// record's result.
+func (r Rec) at() int { return r.Idx*8 + r.Sub }
 
 // Config of a cluster case.
 type Config struct {
@@ -232,7 +245,17 @@ func (h *Handler) KeyEventBatch(ctx context.Context, evs [][]byte) ([][]*handler
 		if err := json.Unmarshal(e, &r); err != nil {
 			return nil, err
 		}
-		out[i] = []*handlerpb.KeyedEvent{{Key: []byte(r.Key), Value: e, Timestamp: timestamppb.New(time.Unix(int64(r.Idx+1), 0))}}
+		ts := timestamppb.New(time.Unix(int64(r.Idx+1), 0))
+		if len(r.Fan) == 0 {
+			out[i] = []*handlerpb.KeyedEvent{{Key: []byte(r.Key), Value: e, Timestamp: ts}}
+			continue
+		}
+		first, _ := json.Marshal(Rec{Split: r.Split, Idx: r.Idx, Key: r.Key, Ord: r.Ord})
+		out[i] = []*handlerpb.KeyedEvent{{Key: []byte(r.Key), Value: first, Timestamp: ts}}
+		for j, f := range r.Fan {
+			v, _ := json.Marshal(Rec{Split: r.Split, Idx: r.Idx, Key: f.Key, Ord: f.Ord, Sub: j + 1})
+			out[i] = append(out[i], &handlerpb.KeyedEvent{Key: []byte(f.Key), Value: v, Timestamp: ts})
+		}
 	}
 	return out, nil
 }
